@@ -7,7 +7,7 @@ formed. Part 2 (spec/PonyCycle.tla): two entities referencing each other through
 references among newly created objects form a cycle the flush must raise and commit nothing (or break the cycle and
 commit everything), when they do not, it must succeed in whatever order the program created and re-pointed them.
 """
-from .. import session_check, session_replay, cycle_c16
+from .. import session_check, session_replay, cycle_c16, keys_c14
 
 LEVEL = 'model_checking'
 
@@ -23,9 +23,17 @@ def run(ctx):
     ctx.coverage['transitions'] += res.generated
     ctx.coverage['traces_validated_against_impl'] += stats['behaviours']
     ctx.coverage['cycle_model'] = dict(stats, graph_transitions=nedges, graph_transitions_replayed=nvisited)
+    # spec/PonyKeys.tla: the save order of a flush when nothing references anything (one statement per queued object, in
+    # queue order): a flush the specification says succeeds must succeed
+    res, stats, found = keys_c14.run(ctx, 800 if quick else 8000, 4 if quick else 6, ctx.seed + 5, check_level=5 if quick else 8)
+    keys_c14.report(ctx, 'C16', res, stats, found)
 
 
 def replay(ctx, rep):
+    if 'keys_trace' in rep:
+        keys_c14.replay(ctx, rep)
+        ctx.violations.append('replayed')
+        return
     if 'cycle_trace' in rep:
         import random
         w = cycle_c16.World(ctx.scratch.path('db', 'cycle.sqlite'))
